@@ -56,6 +56,11 @@ package main
 //                        immediately and repeatedly POST /config naming the STALE revision 1 with a body whose operator is called "stale"
 //                        until it is answered 200 or 4xx; when the node has replayed its log GET /config: revision header and operator
 //                        name in force (expected: the stale post is refused with "Revision mismatch", revision n, operator op<n>)
+//   FS:<k>               RAFT LOG STORE FAILURE: the next StoreLogs call of the child's raft log store that carries a client command fails
+//                        once (control file <raftdir>/fail-storelogs; the wrapper sits below raft's LogCache).  raft answers the pending
+//                        Apply with that error and steps down (api: HTTP 500 "Apply(): ..."), the single node re-elects itself; the entry
+//                        is in no log.  Client k posts its next message into this: first attempt 5xx, then the protocol-conforming retries
+//                        (same ClientMessageId) at the same node until 200 — which must mean: committed and delivered exactly once
 //   G                    every client fetches the increment of its stream (resume protocol: lastseen=<last id seen>)
 //   (end of line)        G, then every client fetches its whole stream (lastseen=0.0)
 // LIVE READERS: from its JOIN on every client also keeps a long-poll GET .../messages?lastseen=<last id it saw> open in a
@@ -134,6 +139,27 @@ func (f vsSlowFSM) Apply(l *raft.Log) interface{} {
 	time.Sleep(f.d)
 	return f.FSM.Apply(l)
 }
+
+// vsFaultStore fails one StoreLogs call that carries a command when the control file exists (FS step).
+type vsFaultStore struct {
+	raft.LogStore
+	ctl string
+}
+
+func (s vsFaultStore) StoreLogs(ls []*raft.Log) error {
+	for _, l := range ls {
+		if l.Type == raft.LogCommand {
+			if _, err := os.Stat(s.ctl); err == nil {
+				os.Remove(s.ctl)
+				return fmt.Errorf("verif: injected failure of the raft log store (index %d)", l.Index)
+			}
+			break
+		}
+	}
+	return s.LogStore.StoreLogs(ls)
+}
+
+func (s vsFaultStore) StoreLog(l *raft.Log) error { return s.StoreLogs([]*raft.Log{l}) }
 
 func vsChildFail(format string, a ...interface{}) {
 	fmt.Fprintf(os.Stderr, "sysdrv child: "+format+"\n", a...)
@@ -234,6 +260,7 @@ func TestVerifSysChild(t *testing.T) {
 	if delayUs > 0 {
 		forRaft = vsSlowStore{LogStore: logStore, d: time.Duration(delayUs) * time.Microsecond}
 	}
+	forRaft = vsFaultStore{LogStore: forRaft, ctl: filepath.Join(dir, "fail-storelogs")}
 	logcache, err := raft.NewLogCache(config.MaxAppendEntries, forRaft)
 	if err != nil {
 		vsChildFail("%v", err)
@@ -1560,6 +1587,30 @@ func (c *vsCase) step(tok string) bool {
 			if !c.privmsg(cl, vsPostOpt{}) {
 				break
 			}
+		}
+	case "FS":
+		if cl := c.clients[vsAtoi(arg(1))]; cl != nil && cl.Dead == "" && cl.Joined {
+			ctl := filepath.Join(c.srv.dir, "fail-storelogs")
+			if err := os.WriteFile(ctl, []byte("1"), 0600); err != nil {
+				c.fail("FS: %v", err)
+				return false
+			}
+			c.privmsg(cl, vsPostOpt{})
+			used := "used"
+			if _, err := os.Stat(ctl); err == nil {
+				os.Remove(ctl)
+				used = "unused"
+			}
+			att, first := 0, "-"
+			cl.mu.Lock()
+			if n := len(cl.Acks); n > 0 {
+				att = cl.Acks[n-1].Attempts
+				if len(cl.Acks[n-1].Fails) > 0 {
+					first = strings.SplitN(cl.Acks[n-1].Fails[0], ":", 2)[0]
+				}
+			}
+			cl.mu.Unlock()
+			c.event("FS:%s:first=%s:attempts=%d", used, first, att)
 		}
 	case "LA":
 		if cl := c.clients[vsAtoi(arg(1))]; cl != nil {
